@@ -34,6 +34,11 @@ func (ks KeySet) Foreach(fn func(Key)) {
 }
 
 func (ks KeySet) Exists(k Key) bool {
+	if ks.head == nil {
+		// Empty set (consistent with Foreach). Without this the nil head
+		// compares equal to the empty key.
+		return false
+	}
 	if ks.head.Equal(k) {
 		return true
 	}
